@@ -102,13 +102,28 @@ def observe(case):
     if case["kind"] == "hist":
         prog = _build_ops(case) + [["count_at", 0, x] for x in case["xs"]] + [["quantile", 0, q] for q in case["qs"]]
         return {"prog": prog, "obs": DI.run_program("f", prog)}
-    # profile
+    # profile (case["repeat"] times in this process: a later profiling must not see anything of an earlier one)
+    runs = [_profile_once(case) for _ in range(int(case.get("repeat", 1)))]
+    out = runs[-1]
+    out["earlier"] = runs[:-1]
+    return out
+
+
+def _profile_values(case):
+    if "spec" in case:
+        sp = case["spec"]     # a long column given by a formula, so that replays stay small
+        return [None if (sp.get("null_every") and i % sp["null_every"] == sp["null_every"] - 1) else (i * sp["a"]) % sp["m"] + (i // sp["block"]) * sp["step"]
+                for i in range(sp["n"])]
+    return case["values"]
+
+
+def _profile_once(case):
     from orso.dataframe import DataFrame
     from orso.schema import FlatColumn, RelationSchema
     from orso.profiler import TableProfile
 
     schema = RelationSchema(name="t", columns=[FlatColumn(name="v", type="INTEGER")])
-    df = DataFrame(rows=[(v,) for v in case["values"]], schema=schema)
+    df = DataFrame(rows=[(v,) for v in _profile_values(case)], schema=schema)
     cp = TableProfile.from_dataframe(df).column("v")
     hist = [[float(v).hex(), int(c)] for v, c in cp.histogram]
     out = {"count": int(cp.count), "missing": int(cp.missing), "minimum": cp.minimum, "maximum": cp.maximum, "hist": hist, "answers": []}
@@ -238,7 +253,14 @@ def _judge(case, obs):
         cas = [dec(o) for o in answers[: len(case["xs"])]]
         qas = [dec(o) for o in answers[len(case["xs"]):]]
         return _check_estimators(st, [float.fromhex(x) for x in case["xs"]], cas, [float.fromhex(q) for q in case["qs"]], qas)
-    # profile
+    # profile: every run of the case is judged; the histogram of each must hold exactly the non-null values
+    for i, earlier in enumerate(obs.get("earlier", [])):
+        why, t = _judge(case, dict(earlier, earlier=[]))
+        if why:
+            return f"profiling no. {i + 1} of the same data: " + why, t
+    if obs["hist"] and sum(c for _, c in obs["hist"]) != obs["count"] - obs["missing"]:
+        return (f"the profile's histogram holds {sum(c for _, c in obs['hist'])} values, the column has {obs['count'] - obs['missing']} non-null values"
+                + (f" (profiling no. {len(obs.get('earlier', [])) + 1} of the same data in this process)" if obs.get("earlier") else "")), set()
     nonnull = obs["count"] - obs["missing"]
     touched = set()
     if obs["minimum"] is None:
@@ -298,6 +320,8 @@ def nontrivial_key(case, obs):
         n_build = len(_build_ops(case))
         vals = set(o.get("ans") for o in obs["obs"][n_build:] if o.get("ans") is not None)
         return repr(case["prog"]) if len(vals) >= 3 else None
+    if "spec" in case:
+        return repr(case["spec"])
     return repr(case["values"]) if len(set(v for v in case["values"] if v is not None)) >= 3 else None
 
 
@@ -377,7 +401,21 @@ def _profile_case(rng):
     return {"kind": "profile", "values": vals, "probes": [float(p).hex() for p in probes]}
 
 
+def _big_profile_case(rng):
+    """a column longer than the profiler's 25000-row morsel (so per-morsel profiles are added), profiled twice"""
+    block = 25000
+    n = rng.choice([block + 1, block + rng.randint(2, 9000), 2 * block + rng.randint(1, 5000)])
+    m = rng.choice([50, 1000, 4000])
+    step = rng.choice([0, 500, 3000])
+    sp = {"n": n, "a": rng.choice([7919, 104729, 31]), "m": m, "block": block, "step": step, "null_every": rng.choice([0, 0, 7, 1000])}
+    lo, hi = 0, m - 1 + ((n - 1) // block) * step
+    probes = sorted(set([float(lo), float(hi)] + [float(rng.randint(lo, hi)) for _ in range(6)] + [lo + (hi - lo) * i / 8.0 for i in range(9)]))
+    return {"kind": "profile", "spec": sp, "repeat": 2, "probes": [float(p).hex() for p in probes]}
+
+
 def corpus():
+    yield {"kind": "profile", "spec": {"n": 60000, "a": 7919, "m": 1000, "block": 25000, "step": 500, "null_every": 0}, "repeat": 2,
+           "probes": [float(x).hex() for x in (0, 1, 250, 999, 1000, 1500, 1999)]}
     yield _W1
     yield _W3
     h = lambda x: float(x).hex()
@@ -399,8 +437,13 @@ def corpus():
 def generate(rng, tier):
     n = 260 if tier == "quick" else 4000
     for i in range(n):
-        if i % 5 == 4:
-            yield _profile_case(rng)
+        if i % 40 == 39:
+            yield _big_profile_case(rng)
+        elif i % 5 == 4:
+            c = _profile_case(rng)
+            if rng.random() < 0.3:
+                c["repeat"] = 2
+            yield c
         else:
             yield _hist_case(rng, tier)
 
